@@ -113,7 +113,7 @@ def do_run(path, o, crash):
     CALLS.update(n=0, crash=crash, log=[])
     datasets = [RAMDataset(dataset(d), name="d%d" % d) for d in range(1, ND + 1)]
     tasks = [TSCTask(target="class_val", features=NFOLDS["features"]) for _ in datasets]
-    strategies = [TSCStrategy(Clf(sid=s), name="s%d" % s) for s in range(1, NS + 1)]
+    strategies = [TSCStrategy(Clf(sid=s), name="s%d" % s) for s in range(1, int(o.get("ns", NS)) + 1)]
     res = HDDResults(path=path)
     orch = Orchestrator(tasks=tasks, datasets=datasets, strategies=strategies, cv=make_cv(), results=res)
     crashed = False
